@@ -6,6 +6,8 @@ FUNCS = ['PEPit/point.py::Point.eval', 'PEPit/expression.py::Expression.eval', '
 
 
 def run(run):
+    from pyvc import skeleton
+    skeleton.apply(run, 'C02')
     runner.load_contracts()
     components.ast_functions(run, FUNCS, run.tier, rt_quick=25, rt_thorough=150)
     n = 33 if run.tier == 'quick' else 165
